@@ -78,6 +78,8 @@ def sym_keycalc(vc):
     from pyvc import lib
     fk = vc.under_contract(P + 'sort_rows.py', ['KeyCalc', '__calculator', 'func'])
     vc.under_contract(P + 'sort_rows.py', ['KeyCalc', '__calculator'])
+    vc.under_contract(P + 'sort_rows.py', ['KeyCalc', '__init__'])
+    vc.under_contract(P + 'sort_rows.py', ['KeyCalc', '__call__'])
     D = z3.Float64()
     for spec_kind in ('list', 'format'):
         def thunk(it, spec_kind=spec_kind):
@@ -132,6 +134,32 @@ def sym_keycalc(vc):
     vc.explore(fk, thunk3)
     vc.cur_fn = fk
     # hex16 is order preserving and fixed width (T7) -- stated as the assumption it is; the obligations above are on bit patterns
+
+
+def replay_keycalc(h, cex, obligation):
+    """the solver's counterexample of a failed key obligation: two doubles x, y (or two texts a, b) -- run the REAL KeyCalc on them"""
+    import math
+    from contracts import replayers as R
+    from dataflows.processors.sort_rows import KeyCalc
+    spec = ['k'] if '[list]' in obligation else '{k}'
+    if 'x' in cex and 'y' in cex:
+        x, y = cex['x'], cex['y']
+        if not all(isinstance(v, float) for v in (x, y)) or math.isnan(x) or math.isnan(y):
+            return 'not-concretisable'
+        kc = KeyCalc(spec)
+        r = h.run(lambda: (kc({'k': x}), kc({'k': y})))
+        ok = r[0] == 'ok' and ((r[1][0] < r[1][1]) == (x < y)) and ((r[1][0] == r[1][1]) == (x == y))
+        h.check(ok, P + 'sort_rows.py::KeyCalc.__calculator.func', dict(x=repr(x), y=repr(y), key_spec=spec),
+                'key(x) < key(y) iff x < y, equal keys iff x == y', r[:2])
+        return
+    a, b = R.scalar(cex, 'a'), R.scalar(cex, 'b')
+    if isinstance(a, str) and isinstance(b, str):
+        kc = KeyCalc(['a', 'b'])
+        r = h.run(lambda: kc({'a': a, 'b': b}))
+        h.check(r[0] == 'ok' and r[1] == a + '\x00' + b + '\x00', P + 'sort_rows.py::KeyCalc.__calculator.func', dict(a=a, b=b),
+                a + '\x00' + b + '\x00', r[:2])
+        return
+    return 'not-concretisable'
 
 
 def sym_sorter(vc):
@@ -298,9 +326,11 @@ def nat_sort(h):
             vals = [h.rng.choice([1, -1, 2.5, decimal.Decimal('2.25'), -3, 0, 10 ** 6, -2.5]) for _ in range(n)]
         elif kind == 'text':
             # (proper prefixes of one another included: 'Ann' < 'Ann Marie' < 'Anna')
-            vals = [h.rng.choice(['apple', 'banana', 'cherry', 'éclair', 'Zebra', 'apply', 'b', 'Ann', 'Ann Marie', 'Anna', 'app', '']) for _ in range(n)]
+            # (no empty string: an iterable source reads '' as a missing value, so the cell reaches sort_rows as null, and the
+            #  place of nulls in the order is not part of the property -- a false alarm of this oracle under VERIF_SEED=1)
+            vals = [h.rng.choice(['apple', 'banana', 'cherry', 'éclair', 'Zebra', 'apply', 'b', 'Ann', 'Ann Marie', 'Anna', 'app', ' ']) for _ in range(n)]
         elif kind == 'two-texts':
-            vals = [(h.rng.choice(['li', 'lin', 'lia', 'l', 'li ']), h.rng.choice(['zoe', 'ann', 'amy', 'a', ''])) for _ in range(n)]
+            vals = [(h.rng.choice(['li', 'lin', 'lia', 'l', 'li ']), h.rng.choice(['zoe', 'ann', 'amy', 'a', 'an'])) for _ in range(n)]
         elif kind == 'text-number':
             vals = [(h.rng.choice(['li', 'lia', 'lib', 'l']), h.rng.choice([5, -5, 50, 0.5])) for _ in range(n)]
         elif kind == 'huge':
@@ -390,8 +420,12 @@ def nat_sort_findings(h):
     h.cur = h.cur.replace('/prefix', '')
 
 
+from contracts import C10 as _K10   # noqa: E402  (ResourceMatcher: the contract every selector-taking step is checked against)
+
 ITEMS = [
-    Item('KeyCalc', sym_keycalc, [('differential', nat_sort), ('several-tables', nat_sort_several_tables)], P + 'sort_rows.py::KeyCalc.__calculator.func'),
+    _K10._mk_matcher_item(),
+    Item('KeyCalc', sym_keycalc, [('differential', nat_sort), ('several-tables', nat_sort_several_tables)], P + 'sort_rows.py::KeyCalc.__calculator.func',
+         replay=replay_keycalc),
     Item('_sorter', sym_sorter, [], P + 'sort_rows.py::_sorter'),
     Item('string-lemmas', sym_string_lemmas, [('findings', nat_sort_findings)], P + 'sort_rows.py::_sorter.process'),
 ]
